@@ -8,8 +8,8 @@
 //!   sig.from_hex_der text               -> OK:<r>;<s>           text = hex of the UTF-8 bytes of the string
 //!   sig.compact r s recid comp          -> OK:<65 bytes>;<r'>;<s'>;<hdr'>   to_compact_bytes(Some(info)), from_compact_bytes on it
 //!   sig.from_compact bytes              -> OK:<r>;<s>;<hdr>
-//!   sig.recover compact msg hash        -> OK:<pubkey> | OK:E   from_compact_bytes (Err -> ERR), recover_public_key
-//!   sig.recover_digest compact digest   -> OK:<pubkey> | OK:E
+//!   sig.recover compact msg hash        -> OK:K;<pubkey> | OK:E   from_compact_bytes (Err -> ERR), recover_public_key
+//!   sig.recover_digest compact digest   -> OK:K;<pubkey> | OK:E
 //!   sig.sign_recover key comp msg hash rk msg2 hash2 -> OK:<same>;<pubkey> | OK:E
 //!        sign_with_deterministic_k, to_compact_bytes(None), from_compact_bytes, recover_public_key(msg2, hash2);
 //!        same = 1 when the recovered key's bytes equal the signer's to_public_key() bytes
@@ -118,7 +118,7 @@ pub fn run(op: &str, args: &[String]) -> Option<String> {
             let msg = some!(arg_bytes(args, 1));
             let h = some!(args.get(2).and_then(|s| hash_of(s)));
             match sig.recover_public_key(&msg, h) {
-                Ok(p) => format!("OK:{}", show_bytes(&okk!(p.to_bytes()))),
+                Ok(p) => format!("OK:K;{}", show_bytes(&okk!(p.to_bytes()))),
                 Err(_) => "OK:E".into(),
             }
         }
@@ -126,7 +126,7 @@ pub fn run(op: &str, args: &[String]) -> Option<String> {
             let sig = okk!(Signature::from_compact_bytes(&some!(arg_bytes(args, 0))));
             let digest = some!(arg_bytes(args, 1));
             match sig.recover_public_key_from_digest(&digest) {
-                Ok(p) => format!("OK:{}", show_bytes(&okk!(p.to_bytes()))),
+                Ok(p) => format!("OK:K;{}", show_bytes(&okk!(p.to_bytes()))),
                 Err(_) => "OK:E".into(),
             }
         }
